@@ -230,17 +230,23 @@ TEnv ==
   /\ Judge({})
 
 TSched ==
-  /\ Ev.act \in {"JobStart", "JobEnd", "Purge"} /\ dr' = dr
+  /\ Ev.act \in {"JobStart", "JobEnd", "Purge", "JobInherit"} /\ dr' = dr
   /\ IF Ev.j \notin JobIds THEN Stuck("C00_schedule_inapplicable")
      ELSE \/ Ev.act = "JobStart" /\ IF CanStart(Ev.j) THEN JobStart(Ev.j) /\ Judge({}) ELSE Stuck("C00_schedule_inapplicable")
           \/ Ev.act = "JobEnd" /\ IF jobs[Ev.j].st = "R" THEN JobEnd(Ev.j, Ev.ok, Ev.tie) /\ Judge({}) ELSE Stuck("C00_schedule_inapplicable")
           \/ Ev.act = "Purge" /\ IF Finished(Ev.j) /\ ~jobs[Ev.j].gone THEN Purge(Ev.j) /\ Judge({}) ELSE Stuck("C00_schedule_inapplicable")
+          (* observed in the real pool: a held task ended without running; legal only as JobInherit *)
+          \/ Ev.act = "JobInherit" /\ IF ENABLED JobInherit(Ev.j) /\ (\E k \in jobs[Ev.j].hold : jobs[k].st = Ev.st)
+                                      THEN JobInherit(Ev.j) /\ jobs'[Ev.j].st = Ev.st /\ Judge({})
+                                      ELSE Stuck("C07_never_after_failure")
+
+TPoolRestart == Ev.act = "PoolRestart" /\ PoolRestart /\ dr' = FALSE /\ Judge({})
 
 TraceNext ==
   /\ bad = {} /\ l <= Len(Events)
   /\ tid' = tid
   /\ \/ TStatus \/ TDryRun \/ TRunBegin \/ TRunSubmit \/ TRunEnd \/ TRunReject \/ TCrash \/ TCrashWrite \/ TQueryFail
-     \/ TTouch \/ TClean \/ TCancel \/ TEnv \/ TSched
+     \/ TTouch \/ TClean \/ TCancel \/ TEnv \/ TSched \/ TPoolRestart
 
 TraceSpec == TraceInit /\ [][TraceNext]_tvars
 
